@@ -250,6 +250,15 @@ def check_pure_vs_assumptions(ctx: Ctx, roles: SatRoles):
             r = n.args[2]
             no_reason = isinstance(r, ast.UnaryOp) and isinstance(r.operand, ast.Constant) and r.operand.value == 1
             sn = cfg.stmt_node_containing(n)
+            if no_reason and sn.id in body:
+                # inside the search loop a variable without antecedent is a decision: it opens its own level.  Conflict
+                # analysis resolves every other variable of the conflict level through its reason clause and stops at
+                # the one that has none - a second reasonless variable on a level makes the learned clause unsound
+                blk_ = __import__("checks.sat_common", fromlist=["_enclosing_block"])._enclosing_block(f.node, sn.ast)
+                prev = [ast.unparse(x) for x in blk_[max(0, blk_.index(sn.ast) - 3) : blk_.index(sn.ast)]]
+                opened = "trail_lim.append(len(trail))" in prev and "dec_level += 1" in prev
+                ctx.ob("C02-O5", "R25 REGISTRATION-TABLE", f, "inside the search loop an assignment without antecedent opens a decision level of its own", opened, f"`{ast.unparse(n)}` after {prev[-2:]}: a literal asserted without reason on an existing level is skipped by conflict analysis (it is taken for the decision), the clauses learned afterwards are not implied by the formula and a satisfiable formula can end INFEASIBLE", node=n)
+                continue
             if not no_reason or sn.id in body:
                 continue
             n_sites += 1
@@ -534,7 +543,13 @@ def _v_learned_clause_minimised(tree):
     g.body[k[0]:k[0]] = M.stmts("if len(learned_lits) > 2:\n    learned_lits[1:] = [lit for lit in learned_lits[1:] if levels[lit_var(lit)] > 0]")
 
 
+def _v_long_learned_clause_dropped(tree):
+    f = M.find_func(tree, "solve_sat")
+    M.insert(f, "clause_idx = len(clauses) + len(learned)", "if len(learned_clause) > 8:\n    assign(lit_var(learned_clause[0]), learned_clause[0] > 0, -1)\n    conflicts_since_restart += 1\n    conflict = propagate()\n    continue")
+
+
 VARIANTS = [
+    M.Variant("a long learned clause is not stored, its first literal is asserted without reason on the backjump level (seed C02-R)", SAT, _v_long_learned_clause_dropped, "C02-O5"),
     M.Variant("literals are removed from the learned clause after resolution (seed C02-O)", SAT, _v_learned_clause_minimised, "C02-O13"),
 
     M.Variant("an assignment that satisfies the clauses is returned before the assumptions are looked at (seed C02-M)", SAT, _v_hint_shortcut_before_assumptions, "C02-O3"),
